@@ -5,13 +5,15 @@ A case is a dict
     {'tag': 'div', 'how': 'direct'|'parsed'|'clone'|'copy'|'deepcopy'|'pickle',
      'attrs': [[name, value|None], ...],          # the attribute list the element is constructed from
      'hist':  [item, ...],                        # operations and mid-history reads, see ITEMS below
-     'views': [view, ...], 'chk': [k, ...]}       # views read on a fresh element after the first k items
+     'views': [[view, ...], ...], 'chk': [k, ...]}   # groups of views; each group is read on a fresh element
+                                                  # after the first k items (views inside a group: one after the other)
 
 Every view is read on a *fresh* element that went through the history prefix (views write: lazy class/style
 synchronisation), and additionally all views are read one after the other on one element at the end.
 """
 import copy
 import pickle
+import re
 from collections import OrderedDict
 from html.parser import HTMLParser
 
@@ -66,9 +68,10 @@ def dot_names_of(d):
             out.append(it[1])
         elif it[0] == 'read' and it[1][0] == 'dotget':
             out.append(it[1][1])
-    for v in d['views']:
-        if v[0] == 'dotget':
-            out.append(v[1])
+    for g in d['views']:
+        for v in g:
+            if v[0] == 'dotget':
+                out.append(v[1])
     return sorted(set(out))
 
 
@@ -137,17 +140,22 @@ def encode(d):
     return sx(tables_sx(tag, dot_names_of(d)),
               [enc(tag), int(is_void(tag.lower())), [[enc(n), _val(v)] for n, v in d['attrs']], through],
               [enc_item(it) for it in d['hist']],
-              [enc_view(v) for v in d['views']],
+              [[enc_view(v) for v in g] for g in d['views']],
               list(d['chk']))
 
 
 # ---------------------------------------------------------------------------------------------------------
 # the real library
 
+_NAME_RE = re.compile(r'^[A-Za-z_][A-Za-z0-9_-]*$')
+
+
 def render_html(tag, attrs):
     """The markup a `parsed` element comes from (double-quoted values, `"` written as &quot;, bare names for None)."""
     parts = []
     for n, v in attrs:
+        if not _NAME_RE.match(n):
+            continue               # cannot be written as one attribute in markup; the constructor drops it as well
         if v is None:
             parts.append(n)
         else:
@@ -361,12 +369,14 @@ def impl(d):
     chks = []
     for k in d['chk']:
         row = ['chk', k]
-        for v in d['views']:
-            row.append(safe(read_view, replay(d, k), v))
+        for g in d['views']:
+            ek = replay(d, k)
+            row.append([safe(read_view, ek, v) for v in g])
         chks.append(row)
     seq = ['seq']
-    for v in d['views']:
-        seq.append(safe(read_view, e, v))
+    for g in d['views']:
+        for v in g:
+            seq.append(safe(read_view, e, v))
     return sx(outs, *(chks + [seq]))
 
 
